@@ -1,7 +1,9 @@
 """C18 — search results reach only live requests; removal and timeouts are exact.
 
-Correspondence K_C18 (real SearchManager + real Timer/BackgroundTask under SimLoop vs. Model/Search.lean) and the
-monitor (the property statement evaluated on the implementation trace, independent of the model).
+Correspondence K_C18 (real SearchManager + real Timer/BackgroundTask + real EventBus under SimLoop vs.
+Model/Search.lean: `step` for the registry / timers, `nstep` for the removal report handed from listener to
+listener) and the monitor (the property statement evaluated on the implementation trace, independent of the model;
+with several listeners per event class: every result / removal reaches every listener exactly once).
 """
 from __future__ import annotations
 
@@ -1351,18 +1353,42 @@ class C18(Property):
             'sent-listener (search call / wishlist task suspended inside emit) while the request is removed, a '
             'WishlistInterval message or server close cancels the wishlist task, a reply arrives or time passes; or a '
             'sent-listener that removes the request it is told about; '
+            'a third MONITOR-ONLY family `multi` (n/4): 0-3 EXTRA listeners per event class (sent / result / removed) '
+            'behind the recorder — plain, async, suspending for 1-3 loop iterations, for 1-4 s, until the schedule '
+            'releases them, raising, removing the request on a result, searching again on a removal — with searches '
+            'and replies as tasks, remove_request by ticket and by object, replies, WishlistInterval / server close, '
+            'Timer.cancel / reschedule, stop() and time passing while an event is handed from listener to listener; '
+            'every result / removal seen by the first listener must reach every other listener of its class exactly '
+            'once and no listener may be aborted (CancelledError); '
+            'and a MODELLED family `notify` (n/5, compared with Search.nstep): 1-3 extra removal listeners that wait '
+            'for `resume <ticket>` (one listener returns, the loop runs), over the random / same-instant op mix plus '
+            'remove_request(<object>) and stop(); '
             'derived from VERIF_SEED. Non-trivial: at least one timeout removal happened AND a reply/removal hit a '
             'ticket that was registered earlier, or a removal / cancel / re-arm hit an armed timer; distinct = '
             'distinct canonical case; a gated case is non-trivial when a removal, a timeout or another reply '
-            'happened while a handler was suspended')
+            'happened while a handler was suspended; a multi / notify case is non-trivial when a listener really '
+            'suspended while a result / removal went to >= 2 extra listeners (or a `resume` made the next listener '
+            'be told)')
     assumptions = [
-        'listeners, the network stub and the shares/upload stubs do not suspend: an API call or message handler '
-        'runs atomically between two loop iterations (a suspending send_server_messages would let other '
-        'operations run between the ticket draw and the registration — not modelled)',
+        'the network stub and the shares/upload stubs do not suspend: apart from the listeners an API call or '
+        'message handler runs atomically between two loop iterations (a suspending send_server_messages would let '
+        'other operations run between the ticket draw and the registration — not modelled)',
+        'listener delivery: the Lean model (Search.nstep) covers SearchRequestRemovedEvent — the timer task stays '
+        'alive while EventBus.emit hands the event from listener to listener, any op may happen in between, '
+        'Timer.cancel is reachable through the registry only; result and sent events with several / suspending '
+        'listeners are exercised by the monitor-only `multi` family (their emitting task — a connection reader, the '
+        'caller, the wishlist task — is not the search manager\'s to cancel, except the wishlist task, whose '
+        'cancellation may legitimately cut a SearchRequestSentEvent delivery short: sent events are not judged per '
+        'listener)',
+        'a listener behind a suspended listener is told late by construction of EventBus.emit; "at the timeout" / '
+        '"iff registered" are judged at the moment of the emission (= the first listener), "exactly once" per listener',
         'timeouts and clock readings are whole seconds (the settings are ints); float timeouts passed to '
         'Timer.reschedule by a user are not generated',
         'Timer objects are only reached through SearchManager.requests (cancel / reschedule of the Timer of an '
-        'already removed request, or a second Timer.start(), are API misuse outside the property)',
+        'already removed request — e.g. through the SearchRequest object kept by the caller while its removal is '
+        'being reported —, or a second Timer.start(), are API misuse outside the property)',
+        'stop(): modelled as the derived op list Search.stopOps (Timer.cancel of every registered request + wishlist '
+        'task cancelled); what else stop() owes (C16) is not judged here',
         'properties are claimed for fewer than 2^32-1 ticket draws between two live requests; the correspondence '
         'stops comparing at the first ticket re-use (the model flags it as `clobber`)',
         'suspension of / re-entrancy from SearchRequestSentEvent listeners is exercised by the monitor-only `gsent` '
@@ -1375,8 +1401,11 @@ class C18(Property):
                 '_attach_request_timer_and_emit, _timeout_search_request, remove_request, _on_peer_search_reply '
                 '(ticket lookup, store_results), _on_wish_list_interval, _on_state_changed; tasks.py: Timer '
                 '(start/cancel/reschedule/runner/_unset_task), BackgroundTask as used for the wishlist job; '
-                'utils.ticket_generator (shape checked by the translator); not modelled: incoming searches '
-                '(_query_shares_and_reply), stop() (C16), suspension inside send_server_messages, asyncio itself')
+                'utils.ticket_generator (shape checked by the translator); events.py: EventBus.emit as used for '
+                'SearchRequestRemovedEvent (listeners called in order inside the timer task, CancelledError not '
+                'caught) — Search.nstep; stop() as far as timers / the wishlist task go (Search.stopOps); '
+                'not modelled: incoming searches (_query_shares_and_reply), listener delivery of result / sent events '
+                '(monitor-only), suspension inside send_server_messages, asyncio itself')
 
     def regenerate(self):
         return [search_constants.generate(common.REPO, common.LEAN)]
